@@ -289,6 +289,8 @@ class TestRunner(RunnerInterface):
             logging.error(
                 f"Test result {uid} for {name} could not be found and extracted, defaulting to ERROR"
             )
+            # the test is no longer running so do not leave a pending status behind
+            node_result["status"] = "ERROR"
         node.prefix = original_prefix
 
         logging.info(f"Finished running test with status {test_status.upper()}")
